@@ -135,39 +135,90 @@ def run(ctx):
                 ctx.fail("config:sleep", "sleeper woke at %d ms, expected %d ms (deadline %d, next switch %s)" % (w, want, dl, nxt[:1]),
                          {"script": rscript, "sleeper": i, "woke_ms": w, "deadline_ms": dl})
                 break
-    # ---- (3) active iff any pump / blower on
-    from geckolib.automation import async_facade as AF
-
+    # ---- (3) active iff any pump / blower on: decided by the REAL facade object (device lists replaced by every on / off combination
+    #      of 0-3 pumps and 0-2 blowers, lights always on), read off the timing table that is installed afterwards
     class Dev:
         def __init__(self, on):
             self.is_on = on
 
-    class Stub:
-        pass
-    captured = []
-    real = AF.set_config_mode
-    AF.set_config_mode = lambda a: captured.append(a)
-    try:
-        for np_ in range(0, 4):
-            for nb in range(0, 3):
-                for bits in range(2 ** (np_ + nb)):
-                    ons = [bool(bits >> j & 1) for j in range(np_ + nb)]
-                    st = Stub()
-                    st._pumps = [Dev(x) for x in ons[:np_]]
-                    st._blowers = [Dev(x) for x in ons[np_:]]
-                    st._lights = [Dev(True)]
-                    st.all_config_change_devices = AF.GeckoAsyncFacade.all_config_change_devices.fget(st)
-                    captured.clear()
-                    AF.GeckoAsyncFacade._on_config_device_change(st)
-                    got = captured[-1]
-                    exprs.append("chk_active [%s] [%s] %s" % ("; ".join(vf.cbool(x) for x in ons[:np_]), "; ".join(vf.cbool(x) for x in ons[np_:]), vf.cbool(got)))
-                    meta.append({"pumps": ons[:np_], "blowers": ons[np_:], "active": got})
-                    ctx.case(("active", np_, nb, bits))
-                    ctx.count("active_cases")
-                    if got != any(ons):
-                        ctx.fail("config:active", "facade selected active=%s with pumps/blowers %s" % (got, ons), {"pumps": ons[:np_], "blowers": ons[np_:]})
-    finally:
-        AF.set_config_mode = real
+        def unwatch_all(self):
+            pass
+    combos3 = []
+    for np_ in range(0, 4):
+        for nb in range(0, 3):
+            for bits in range(2 ** (np_ + nb)):
+                combos3.append((np_, nb, [bool(bits >> j & 1) for j in range(np_ + nb)]))
+    # ---- (4) the REAL facade, over consecutive connections: the timing table is process-wide, so what one facade leaves behind
+    #      must not decide for the next one - after every device change / facade update the installed table is the complete active
+    #      table iff a pump or blower of the CURRENT facade is on
+    from harness import session
+
+    def installed():
+        import geckolib.config as C
+        cur = {m: getattr(C.GeckoConfig, m) for m in C.CONFIG_MEMBERS}
+        act, idle = C._GeckoActiveConfig(), C._GeckoIdleConfig()
+        if cur == {m: getattr(act, m) for m in C.CONFIG_MEMBERS}:
+            return "active"
+        if cur == {m: getattr(idle, m) for m in C.CONFIG_MEMBERS}:
+            return "idle"
+        return "mixed"
+
+    decisions = []
+
+    async def sessions(loop):
+        out = []
+        plan = [("on",), ("off", "on"), ("on", "close_on"), ("idle_only",), ("on", "off")]
+        for k, acts in enumerate(plan[:5 if ctx.thorough else 4] + [("idle_only",)]):
+            peer = session.Peer(loop, "inYT-all off-2020-10-23 18_00_45.snapshot", echo_delay=0.1)
+            cl = session.Client(peer)
+            if not await cl.connect(with_facade=True):
+                out.append((k, "connect", None, "no connection"))
+                continue
+            await asyncio.sleep(3.0)
+            f = cl.facade
+            if k == 0:
+                saved = (f._pumps, f._blowers, f._lights)
+                order = list(combos3)
+                ctx.rng.shuffle(order)
+                for (np_, nb, ons) in order:
+                    f._pumps, f._blowers, f._lights = [Dev(x) for x in ons[:np_]], [Dev(x) for x in ons[np_:]], [Dev(True)]
+                    f._on_config_device_change()
+                    decisions.append((np_, nb, ons, installed()))
+                f._pumps, f._blowers, f._lights = saved
+                f._on_config_device_change()
+                await asyncio.sleep(0.5)
+            devs = list(f.pumps) + list(f.blowers)
+            out.append((k, "start", any(d.is_on for d in devs), installed()))
+            for a in acts:
+                # the spa itself switches the pump (its state item changes and is reported by a partial update)
+                acc = f.pumps[0]._state_sensor.accessor if f.pumps else None
+                if a == "on" and acc is not None:
+                    peer.spontaneous(acc.tag, True if acc.items is None else [x for x in acc.items if x != "OFF"][0])
+                elif a == "off" and acc is not None:
+                    peer.spontaneous(acc.tag, False if acc.items is None else "OFF")
+                elif a in ("idle_only", "close_on"):
+                    pass
+                await asyncio.sleep(4.0)
+                out.append((k, a, any(d.is_on for d in devs), installed()))
+            await cl.close()
+            await asyncio.sleep(1.0)
+        return out
+    observations = vloop.run(sessions)
+    for (np_, nb, ons, table) in sorted(decisions, key=lambda d: (d[0], d[1], d[2])):
+        got = {"active": True, "idle": False}.get(table)
+        exprs.append("chk_active [%s] [%s] %s" % ("; ".join(vf.cbool(x) for x in ons[:np_]), "; ".join(vf.cbool(x) for x in ons[np_:]), vf.cbool(bool(got))))
+        meta.append({"pumps": ons[:np_], "blowers": ons[np_:], "installed": table})
+        ctx.case(("active", np_, nb, tuple(ons)))
+        ctx.count("active_cases")
+        if got is None or got != any(ons):
+            ctx.fail("config:active", "with pumps / blowers %s the facade left the %s timing table installed" % (ons, table), {"pumps": ons[:np_], "blowers": ons[np_:], "installed": table})
+    for (k, what, any_on, table) in observations:
+        ctx.count("real_facade_config_observations")
+        ctx.case(("real_facade", k, what, any_on, table), nontrivial=True)
+        if any_on is None or table != ("active" if any_on else "idle"):
+            ctx.fail("config:real_facade_sessions", "connection %d, after '%s': a pump / blower of the current facade on = %s, installed timing table = %s" % (k + 1, what, any_on, table),
+                     {"connection_number": k + 1, "after": what, "any_pump_or_blower_on": any_on, "installed_table": table})
+            break
     for s in (meta[0], meta[20], meta[-1]):
         ctx.sample(s)
     res = ctx.coq_cases("cfg", HEADER, exprs, shard=200)
